@@ -87,7 +87,9 @@ def search(seed=0, N=400):
     incs = {"inc1": "<<{{name}}|{{>inc2}}>>", "inc2": "(({{?opt}}{{>inc3}}))", "inc3": "deep {{name|lower}}"}
     plain_vals = [{"name": "World", "opt": "o", "flag": True, "off": False, "xs": ["a", "b"], "ds": [{"k": "v"}], "title": "the title"},
                   {"name": "N", "flag": 0, "off": "", "xs": [], "ds": [{"k": 1}, {"k": 2}], "title": ""},
-                  {"name": 7, "opt": "", "flag": "x", "xs": ("t",), "ds": [], "title": "a b"}]
+                  {"name": 7, "opt": "", "flag": "x", "xs": ("t",), "ds": [], "title": "a b"},
+                  {"name": 0, "opt": 0, "flag": None, "off": [], "xs": [0, False], "ds": [{"k": 0}], "title": "x"},
+                  {"name": False, "opt": None, "flag": 1, "xs": [None], "ds": [{"k": None}], "title": "y"}]
     evil = "{{secret}}"
     evil_vals = [{"name": evil, "secret": "S", "flag": True, "xs": ["a"], "ds": [{"k": "v"}], "title": "t"},
                  {"name": "n", "secret": "S", "flag": True, "xs": [evil, "{{>inc3}}"], "ds": [{"k": evil}], "title": "t", "opt": "{{#if flag}}X{{/if}}"},
@@ -143,7 +145,7 @@ def search(seed=0, N=400):
 if __name__ == "__main__":
     seed = int(os.environ.get("VERIF_SEED", "0") or 0)
     n, bad, seen = search(seed, 400 if "--thorough" not in sys.argv else 5000)
-    out = {"status": "ok" if bad is None else "violation", "bound": "seeded templates of 1..5 documented constructs x 3 delimiter-free contexts + 3 contexts whose values contain constructs; includes to depth 3",
+    out = {"status": "ok" if bad is None else "violation", "bound": "seeded templates of 1..5 documented constructs x 5 delimiter-free contexts (incl. falsy non-string values) + 3 contexts whose values contain constructs; includes to depth 3",
            "cases": n, "known_findings": list(seen.values())}
     if bad:
         out["detail"] = bad
